@@ -253,16 +253,36 @@ class Func(object):
             return (c, i == 0)
         return None
 
-    def guard_conds(self, bid):
+    def guard_conds(self, bid, expand=True):
+        """facts (condition node, polarity) that hold whenever block bid executes; `a && b` true is expanded
+        to a true, b true; `a || b` false to a false, b false; `!a` flips."""
         out = []
         for (d, i) in self.guards(bid):
             ec = self.edge_cond(d, i)
             if ec is not None:
-                out.append(ec)
+                if expand and isinstance(ec[1], bool):
+                    out.extend(self.expand_cond(ec[0], ec[1]))
+                else:
+                    out.append(ec)
         return out
 
+    def expand_cond(self, cn, pol, depth=0):
+        n = self.nodes.get(cn)
+        res = [(cn, pol)]
+        if n is None or depth > 12:
+            return res
+        if n["k"] == "bin" and n["op"] == "&&" and pol is True:
+            for a in n["a"]:
+                res.extend(self.expand_cond(a, True, depth + 1))
+        elif n["k"] == "bin" and n["op"] == "||" and pol is False:
+            for a in n["a"]:
+                res.extend(self.expand_cond(a, False, depth + 1))
+        elif n["k"] == "un" and n["op"] == "!":
+            res.extend(self.expand_cond(n["a"][0], not pol, depth + 1))
+        return res
+
     # ----- path queries ------------------------------------------------------------------------
-    def paths_avoiding(self, start, is_target, is_barrier, start_is_node=True, want_path=True):
+    def paths_avoiding(self, start, is_target, is_barrier, start_is_node=True, want_path=True, edge_ok=None):
         """Search forward from `start` (node id: begin just after it; or block id when
         start_is_node=False: begin at block head) for a node where is_target(node) holds without first
         crossing a node where is_barrier(node) holds.  Returns a witness path (list of block ids) + the
@@ -293,8 +313,10 @@ class Func(object):
                     break
             if cut:
                 continue
-            for s in self.succ[b]:
+            for ei, s in enumerate(self.succ[b]):
                 if s >= 0 and s not in seen:
+                    if edge_ok is not None and not edge_ok(b, ei):
+                        continue
                     dq.append((s, 0, path + (s,) if want_path else path))
         return None
 
